@@ -340,7 +340,6 @@ func c18Draws(c *Ctx, n int) {
 	}
 }
 
-
 // ---------- a random source that returns SHORT READS ----------
 // io.Reader allows Read to return fewer bytes than asked for with a nil error; crypto/rand.Reader may legitimately be
 // replaced by such a source (a buffered or hardware-backed reader).  Identifiers must still consist of 122 fresh bits.
